@@ -254,6 +254,18 @@ mut("connectable_host_is_parent", "pymtl3/dsl/Connectable.py",
     "        host = s.get_parent_object()\n        while not host.is_component() and not host.is_interface():\n          host = host.get_parent_object() # go to the component\n        if host.is_interface(): host = host.get_parent_object()\n",
     ["C14"])
 
+# -- interface arrays / reserved words (ifcgen family, F29 remaining sites, F33) --------------------------
+mut("yosys_revert_top_ifc_index_order", "pymtl3/passes/backends/yosys/translation/structural/YosysStructuralTranslatorL3.py",
+    "      idx = pre + idx\n      return [ template.format( **locals() ) ]",
+    "      idx = ''.join(reversed(['[' + x for x in pre.split('[') if x])) + idx\n      return [ template.format( **locals() ) ]",
+    ["C12"])
+mut("yosys_revert_subcomp_ifc_index_order", "pymtl3/passes/backends/yosys/translation/structural/YosysStructuralTranslatorL4.py",
+    "        return [ { \"direction\" : d, \"pid\" : pid, \"wid\" : wid, \"idx\" : pre + idx } ]",
+    "        return [ { \"direction\" : d, \"pid\" : pid, \"wid\" : wid, \"idx\" : ''.join(reversed(['[' + x for x in pre.split('[') if x])) + idx } ]",
+    ["C12"])
+mut("tr_revert_reserved_subcomp_check", "pymtl3/passes/backends/verilog/translation/structural/VStructuralTranslatorL4.py",
+    "    s.check_decl( c_id, f\"sub-component {c_id} of {m}\" )\n", "    pass\n", ["C03"])
+
 
 def load_extra():
   p = os.path.join(VERIF, "tools", "mutants_extra.json")
